@@ -88,13 +88,25 @@ Fixpoint propagate_loop_x (fx : bool) (p : path) (stream : list frame) (left rig
 Definition propagate_x (fx : bool) (p : path) (init : frame) (stream : list frame) (left right : Z)
   : prop_result := propagate_loop_x fx p (init :: stream) left right 0.
 
+(* The failure test on the program's return code.  [code] is what subprocess.Popen.poll() /
+   .returncode reports: the exit status (>= 0) of a program that exited, and the NEGATIVE number
+   -N for a program that was killed by signal N (-9: SIGKILL from the OOM killer or a batch
+   system, -11: SIGSEGV, -15: a SIGTERM the engine did not send; the engine's own SIGTERM is
+   the [PKilled] outcome, where the code is not looked at).  [strict = true] is the test of
+   /repo: `return_code != 0` (lammps.py, cp2k.py), `poll != 0` (GromacsRunner.check_poll).
+   [strict = false] is the variant `> 0`, which takes a death by signal for a clean exit
+   (refuted: C12_*_signal_death_gt0_refuted). *)
+Definition exit_failed (strict : bool) (code : Z) : bool :=
+  if strict then negb (code =? 0) else 0 <? code.
+
 Section Poll.
 Variable fx : bool.
 Variable ord : Z -> Z -> Z -> Z.
 Variables left right : Z.
 Variable rv : bool.        (* `reverse` of propagate() = system.vel_rev in _propagate_from *)
 Variable traj : list conf. (* what the program writes if it is never stopped *)
-Variable code : Z.         (* its exit code when it ends by itself *)
+Variable code : Z.         (* its return code when it ends by itself (signed, see exit_failed) *)
+Variable strict : bool.    (* the failure test on the return code: true = `!= 0` (as in /repo) *)
 
 (* EngineBase.calculate_order(system, xyz, vel, box):
    system.vel = vel * -1.0 if system.vel_rev else vel ; order_function.calculate(system) *)
@@ -107,9 +119,10 @@ Definition snapshot (o : Z) (step : nat) : frame := mkF o (Z.of_nat step) rv ste
 Definition exit_state : pstate := PExited code.
 
 (* result of the loop falling through without a stop: `if return_code != 0 and not
-   was_terminated: raise RuntimeError` else return (success=False, status) *)
+   was_terminated: raise RuntimeError` else return (success=False, status); a NEGATIVE return
+   code (death by signal) is a failure like any other non-zero code *)
 Definition fell_through (p : path) : poll_result :=
-  if code =? 0 then Trunc p exit_state else Raise p exit_state.
+  if exit_failed strict code then Raise p exit_state else Trunc p exit_state.
 
 (* frames handed out by one call of ReadAndProcessOnTheFly.read_and_process_content when
    the reader has already returned [rd] frames and [c] complete frames are in the file *)
@@ -170,7 +183,7 @@ Fixpoint lmp_polls (reads : list (nat * bool)) (rd : nat) (tr : list conf) (bx :
 (* [dead_at_start]: the program was seen dead while waiting for the dump file to appear;
    `if exe.poll() is None or exe.returncode == 0:` guards the whole reading loop *)
 Definition lammps_run (p0 : path) (dead_at_start : bool) (reads : list (nat * bool)) : poll_result :=
-  if dead_at_start && negb (code =? 0) then Raise p0 exit_state
+  if dead_at_start && exit_failed strict code then Raise p0 exit_state
   else lmp_polls reads 0 [] [] p0 0.
 End Lammps.
 
@@ -222,7 +235,7 @@ Fixpoint cp2k_polls (reads : list (nat * nat * bool)) (rdp rdv : nat) (ps vs : l
   end.
 
 Definition cp2k_run (p0 : path) (dead_at_start : bool) (reads : list (nat * nat * bool)) : poll_result :=
-  if dead_at_start && negb (code =? 0) then Raise p0 exit_state
+  if dead_at_start && exit_failed strict code then Raise p0 exit_state
   else cp2k_polls reads 0 0 [] [] p0 0.
 End Cp2k.
 
@@ -302,10 +315,10 @@ Fixpoint gmx_consume_all (cs : list conf) (i : nat) (p : path) : poll_result :=
       end
   end.
 
-(* check_poll() sees the program exited: RuntimeError unless the code is 0; otherwise
+(* check_poll() sees the program exited: RuntimeError if `poll != 0` (exit_failed); otherwise
    `if getsize - bytes_read > 0: for data in read_remaining_trr(...)` *)
 Definition gmx_exit (rem : list conf) (br i : nat) (p : path) : poll_result :=
-  if negb (code =? 0) then Raise p exit_state
+  if exit_failed strict code then Raise p exit_state
   else gmx_consume_all (firstn ((final_size - br) / (hsz + dsz)) rem) i p.
 
 Fixpoint gmx_epochs (eps : list nat) (rem : list conf) (ph : gphase) (br hs i : nat) (p : path)
@@ -339,7 +352,7 @@ Fixpoint gmx_epochs (eps : list nat) (rem : list conf) (ph : gphase) (br hs i : 
 
 (* GromacsRunner.start(): waits for the .trr and .edr; check_poll raises on a non-zero code *)
 Definition gromacs_run (p0 : path) (dead_at_start : bool) (eps : list nat) : poll_result :=
-  if dead_at_start && negb (code =? 0) then Raise p0 exit_state
+  if dead_at_start && exit_failed strict code then Raise p0 exit_state
   else gmx_epochs eps traj GOuter 0 0 0 p0.
 End Gmx.
 
